@@ -136,6 +136,7 @@ type lfBinding struct {
 	owned bool // state-owned object (guarded by the state lock)
 	fresh bool // freshly allocated, not yet shared
 	fn    *lfFn
+	ext   string // value of an imported package (e.g. the result of time.Now()): its methods are not ours
 }
 
 type lfScope struct {
@@ -181,6 +182,7 @@ type lfAnalysis struct {
 	changed bool
 
 	edges        map[[2]lfLock]string
+	edgeHolders  map[[3]string]bool // (held lock, acquired lock, the function that holds the first while the second is taken)
 	callouts     map[[4]string]bool
 	inconsistent map[[2]string]bool
 	lockSites    map[string]int
@@ -214,7 +216,7 @@ func lfRecv(fd *ast.FuncDecl) (name, typ string, ptr bool) {
 func newLockAnalysis(p *pkgFiles) *lfAnalysis {
 	a := &lfAnalysis{p: p, types: map[string]*ast.TypeSpec{}, funcs: map[string]*lfFn{}, byName: map[string][]*lfFn{},
 		pkgVars: map[string]ast.Expr{}, imports: map[string]bool{}, litCount: map[string]int{}, litFns: map[*ast.FuncLit]*lfFn{},
-		edges: map[[2]lfLock]string{}, callouts: map[[4]string]bool{}, inconsistent: map[[2]string]bool{},
+		edges: map[[2]lfLock]string{}, edgeHolders: map[[3]string]bool{}, callouts: map[[4]string]bool{}, inconsistent: map[[2]string]bool{},
 		lockSites: map[string]int{}, reads: map[string]int{}, writes: map[string]int{}, unresolved: map[string]bool{},
 		handlerRoots: map[string]bool{}}
 	var names []string
@@ -639,6 +641,11 @@ func (a *lfAnalysis) edge(h, l lfLock, wit string) {
 	if old, ok := a.edges[k]; !ok || wit < old {
 		a.edges[k] = wit
 	}
+	holder := wit
+	if i := strings.Index(wit, "\u2192"); i >= 0 {
+		holder = wit[:i]
+	}
+	a.edgeHolders[[3]string{h.name, l.name, holder}] = true
 }
 
 func (a *lfAnalysis) callout(fn, kind string, h lfLock) {
@@ -965,7 +972,7 @@ func (w *lfWalker) ev(e ast.Expr, st *lfState, wr bool) lfVal {
 		return lfVal{}
 	case *ast.Ident:
 		if b := w.scope.lookup(v.Name); b != nil {
-			return lfVal{t: b.t, owned: b.owned, fresh: b.fresh, fn: b.fn, rooted: b == w.recvBind && w.recvBind != nil, local: true}
+			return lfVal{t: b.t, owned: b.owned, fresh: b.fresh, fn: b.fn, rooted: b == w.recvBind && w.recvBind != nil, local: true, ext: b.ext}
 		}
 		if a.imports[v.Name] {
 			return lfVal{pkg: v.Name}
@@ -1475,7 +1482,7 @@ func (w *lfWalker) bindLocal(id *ast.Ident, v lfVal, define bool) {
 	owned := v.owned && w.a.refLike(v.t)
 	if define {
 		if _, ok := w.scope.vars[id.Name]; !ok {
-			w.define(id.Name, &lfBinding{t: v.t, owned: owned, fresh: v.fresh && !owned, fn: v.fn})
+			w.define(id.Name, &lfBinding{t: v.t, owned: owned, fresh: v.fresh && !owned, fn: v.fn, ext: v.ext})
 			return
 		}
 	}
@@ -1484,6 +1491,7 @@ func (w *lfWalker) bindLocal(id *ast.Ident, v lfVal, define bool) {
 			b.t = v.t
 		}
 		b.owned = owned
+		b.ext = v.ext
 		b.fresh = v.fresh && !owned
 		if v.fn != nil {
 			b.fn = v.fn
@@ -2062,6 +2070,14 @@ func (a *lfAnalysis) render(repo string) string {
 	sort.Strings(items)
 	lfList(o, "(held lock, held exclusively?, acquired lock, acquired exclusively?, witness) : lock-order edges, re-acquisitions included",
 		"edges", "(String × Bool × String × Bool × String)", items)
+
+	items = nil
+	for k := range a.edgeHolders {
+		items = append(items, fmt.Sprintf("(%s, %s, %s)", leanStr(k[0]), leanStr(k[1]), leanStr(k[2])))
+	}
+	sort.Strings(items)
+	lfList(o, "(held lock, acquired lock, holder) : EVERY function that holds the first lock while the second is acquired (by itself or by a callee)",
+		"edgeHolders", "(String × String × String)", items)
 
 	items = nil
 	for k := range a.callouts {
